@@ -10,6 +10,7 @@ import (
 
 	"github.com/gorilla/websocket"
 	control "github.com/longportapp/openapi-protobufs/gen/go/control"
+	protocol "github.com/longportapp/openapi-protocol/go"
 	"github.com/longportapp/openapi-protocol/go/client"
 	"google.golang.org/protobuf/proto"
 )
@@ -215,6 +216,9 @@ func (r *Run) c05Scenario(trans string, v int, k int, npk int) {
 			ty, cmd, body = 3, uint8(50+g.Intn(5)), g.Bytes(g.Intn(8))
 		case c < 9: // a request from the peer whose id collides with an outstanding call
 			ty, cmd, body = 1, uint8(60+g.Intn(5)), g.Bytes(g.Intn(8))
+			if g.Chance(40) {
+				cmd = uint8(2 + g.Intn(2)) // AUTH / RECONNECT as a request frame: not a response either
+			}
 			rid = ids[g.Intn(k)]
 		default: // heartbeat response (pong)
 			ty, cmd, rid, body = 2, 1, uint32(g.Intn(5)), nil
@@ -247,6 +251,9 @@ func (r *Run) c05Scenario(trans string, v int, k int, npk int) {
 				// direct oracle: the returned packet carries this call's id
 				if res.pkt != nil && res.pkt.Metadata.RequestId != ids[target] {
 					r.violate(Violation{What: "a call returned a packet with another request id", Case: strings.Join(events, " ")})
+				}
+				if res.pkt != nil && res.pkt.Metadata.Type != protocol.ResponsePacket {
+					r.violate(Violation{What: "a call returned a packet that is not a response", Case: strings.Join(events, " ")})
 				}
 				if res.err != nil && strings.Contains(res.err.Error(), "timeout") {
 					r.violate(Violation{What: "the matching response was delivered while the call was waiting, but the call timed out", Case: strings.Join(events, " "), Sig: "c07-lost-response"})
